@@ -277,8 +277,8 @@ def map_job(ck, prog, natbin, kind, K, segs, quick):
     native.close()
 
 
-def main():
-    ck = Check("C14")
+def prepare(ck):
+    """configure `ck` and return the list of jobs of this property's exploration"""
     ck.crate = "hconv"
     quick = ck.tier == "quick"
     K = 3 if quick else 4
@@ -300,7 +300,12 @@ def main():
     for kind, k, segs in kinds:
         ck.programs.add(kind)
         jobs.append(lambda sub, kind=kind, k=k, segs=segs: map_job(sub, prog, natbin, kind, k, segs, quick))
-    ck.run_jobs(jobs)
+    return jobs
+
+
+def main():
+    ck = Check("C14")
+    ck.run_jobs(prepare(ck))
     ck.require_reached(["ok", "err:duplicate", "err:format", "err:conv", "err:custom"])
     ck.finish()
 
